@@ -37,7 +37,11 @@
 (* the replication settings and computes the expected replica set for every  *)
 (* ring position and for every key position.  The "done" states are the      *)
 (* instances; checks/c26.py evaluates every one of them on the real          *)
-(* Metadata/TokenMap/ReplicationStrategy objects.                            *)
+(* Metadata/TokenMap/ReplicationStrategy objects.  AlterReplication then     *)
+(* changes the settings of the same keyspace (up to MaxAlters times): a done *)
+(* state with Len(hist) > 1 is a history "settings installed, replicas       *)
+(* looked up, settings altered, ..." whose expectations are those of the     *)
+(* last settings (C26 on get_replicas, C22 on token-aware plans).            *)
 EXTENDS Naturals, Sequences, FiniteSets, TLC
 
 CONSTANTS MaxHosts,     \* hosts are 1..n, n <= MaxHosts
@@ -45,7 +49,8 @@ CONSTANTS MaxHosts,     \* hosts are 1..n, n <= MaxHosts
           MaxRacks,     \* racks per datacenter are 1..MaxRacks
           MaxRing,      \* number of tokens in the ring
           MaxRF,        \* SimpleStrategy rf in 1..MaxRF, NTS rf per dc in 0..MaxRF
-          Lens          \* ring lengths generated (subset of 1..MaxRing)
+          Lens,         \* ring lengths generated (subset of 1..MaxRing)
+          MaxAlters     \* how many times the keyspace's replication settings are altered afterwards
 
 Min(a, b) == IF a < b THEN a ELSE b
 
@@ -144,8 +149,9 @@ VARIABLES len,        \* ring length this behaviour builds
           phase,      \* "build" | "done"
           strat,      \* [kind |-> "none"] | [kind |-> "Simple", rf |-> n] | [kind |-> "NTS", rfs |-> <<..>>]
           expected,   \* ring position -> replica set          (valid when done)
-          byKey       \* key position 1..2L+1 -> replica set   (valid when done)
-vars == <<len, ring, dc, rack, phase, strat, expected, byKey>>
+          byKey,      \* key position 1..2L+1 -> replica set   (valid when done)
+          hist        \* every replication setting the keyspace has had, oldest first (strat is the last one)
+vars == <<len, ring, dc, rack, phase, strat, expected, byKey, hist>>
 
 NHosts == Len(dc)
 UsedDCs == {dc[h] : h \in 1..NHosts}
@@ -155,14 +161,14 @@ Init == /\ len \in Lens
         /\ ring = <<>> /\ dc = <<>> /\ rack = <<>>
         /\ phase = "build"
         /\ strat = [kind |-> "none"]
-        /\ expected = <<>> /\ byKey = <<>>
+        /\ expected = <<>> /\ byKey = <<>> /\ hist = <<>>
 
 \* a token owned by a host already in the ring
 OldToken(h) ==
     /\ phase = "build" /\ Len(ring) < len
     /\ h \in 1..NHosts
     /\ ring' = Append(ring, h)
-    /\ UNCHANGED <<len, dc, rack, phase, strat, expected, byKey>>
+    /\ UNCHANGED <<len, dc, rack, phase, strat, expected, byKey, hist>>
 
 \* a token owned by a new host; datacenters and racks are introduced in order of first appearance
 NewToken(d, r) ==
@@ -173,7 +179,7 @@ NewToken(d, r) ==
     /\ ring' = Append(ring, NHosts + 1)
     /\ dc' = Append(dc, d)
     /\ rack' = Append(rack, r)
-    /\ UNCHANGED <<len, phase, strat, expected, byKey>>
+    /\ UNCHANGED <<len, phase, strat, expected, byKey, hist>>
 
 Strategies ==
     {[kind |-> "Simple", rf |-> n] : n \in 1..MaxRF}
@@ -190,11 +196,27 @@ Finish(s) ==
     /\ strat' = s
     /\ expected' = [i \in 1..len |-> ReplicasAt(s, i)]
     /\ byKey' = [k \in 1..(2 * len + 1) |-> expected'[Lookup(len, k)]]
+    /\ hist' = <<s>>
     /\ UNCHANGED <<len, ring, dc, rack>>
+
+\* ALTER KEYSPACE ... WITH replication = s: a keyspace schema refresh installs new settings while the driver
+\* has already answered (and cached) replica lookups for the old ones.  From then on the replicas of every
+\* range are the ones Cassandra's placement gives for the CURRENT settings; nothing of the old ones survives.
+\* (driver side: Metadata._update_keyspace / _rebuild_all -> _keyspace_updated -> TokenMap.rebuild_keyspace,
+\* cassandra/metadata.py 163-194, 253-259, 1740-1753)
+AlterReplication(s) ==
+    /\ phase = "done" /\ Len(hist) <= MaxAlters
+    /\ s \in Strategies /\ s # strat
+    /\ strat' = s
+    /\ expected' = [i \in 1..len |-> ReplicasAt(s, i)]
+    /\ byKey' = [k \in 1..(2 * len + 1) |-> expected'[Lookup(len, k)]]
+    /\ hist' = Append(hist, s)
+    /\ UNCHANGED <<len, ring, dc, rack, phase>>
 
 Next == \/ \E h \in 1..MaxHosts : OldToken(h)
         \/ \E d \in 1..MaxDCs, r \in 1..MaxRacks : NewToken(d, r)
         \/ \E s \in Strategies : Finish(s)
+        \/ \E s \in Strategies : AlterReplication(s)
 
 Spec == Init /\ [][Next]_vars
 
@@ -237,7 +259,18 @@ LookupOK ==
     Done => /\ \A i \in 1..L : byKey[2 * i] = expected[i] /\ byKey[2 * i - 1] = expected[i]
             /\ byKey[2 * L + 1] = expected[1]
 
+\* replicas depend on the current settings only, whatever the keyspace's settings were before
+CurrentSettingsOnly ==
+    Done => /\ hist # <<>> /\ strat = hist[Len(hist)]
+            /\ expected = [i \in 1..L |-> ReplicasAt(strat, i)]
+
 \* vacuity witnesses (expected to be VIOLATED)
+Witness_AlterChangesReplicas ==
+    ~(Done /\ Len(hist) >= 2 /\ \E i \in 1..L : ReplicasAt(hist[Len(hist) - 1], i) # expected[i])
+Witness_AlterSimpleToNTS ==
+    ~(Done /\ Len(hist) >= 2 /\ hist[Len(hist) - 1].kind = "Simple" /\ strat.kind = "NTS")
+Witness_AlterNTSToNTS ==
+    ~(Done /\ Len(hist) >= 2 /\ hist[Len(hist) - 1].kind = "NTS" /\ strat.kind = "NTS")
 Witness_RackRepeatConsecutive ==   \* a host with two tokens in an already represented rack, NTS with rf > racks
     ~(Done /\ strat.kind = "NTS" /\ \E i \in 1..L, j \in 1..L : i < j /\ ring[i] = ring[j]
            /\ \E d \in 1..MaxDCs : strat.rfs[d] > Cardinality(RacksIn(ring, dc, rack, d))
